@@ -43,7 +43,7 @@ theorem accel_norm (g : ℝ) :
 /-- gyroscope: y = ω + b -/
 theorem gyro_model (om : Fin 3 → ℝ) :
     sim.measure_gyro.y_vec x om 0 (fun _ => 0) = fun i => om i + x (Fin.natAdd 3 i) := by
-  funext i; fin_cases i <;> simp [cas_defs, cas_real]
+  funext i; fin_cases i <;> simp [cas_defs, cas_real] <;> (try ring1)
 
 /-- magnetometer: the noise-free reading is the true-attitude rotation R(r)ᵀ of the reading at the identity
     attitude (a nav-frame vector that depends only on field strength, declination and inclination) -/
